@@ -294,7 +294,7 @@ class Sym:
         b = as_sym(o)
         if b is None:
             return NotImplemented
-        return Sym(b.r_() / self.r_(), None)
+        return b.__truediv__(self)
 
     def __floordiv__(self, o):
         b = as_sym(o)
